@@ -58,13 +58,19 @@ def program(rng, tier):
     if rng.random() < 0.75:
         # usual prologue so that the fuzzed calls hit a session with checks / refreshes / transfers in flight
         k = rng.randint(1, 2)
+        kk = {"A": k, "B": k}
+        if rng.random() < 0.3:
+            kk[rng.choice("AB")] = 3 - k          # the two sides disagree on the number of components (RTP+RTCP against RTP only)
         for ag in "AB":
-            ops.append(f"stream {ag} {k}"); sids[ag].append(1); ncomp[(ag, 1)] = k
+            ops.append(f"stream {ag} {kk[ag]}"); sids[ag].append(1); ncomp[(ag, 1)] = kk[ag]
             ops.append(f"attach {ag} 1")
             if use_turn and rng.random() < 0.7:
                 ops.append(f"relay {ag} 1 1 127.0.0.60:3478 user pass 0")
             ops.append(f"gather {ag} 1")
         ops.append(f"run {rng.choice([0, 30, 200])}")
+        if rng.random() < 0.3:
+            x_ = rng.choice("AB")
+            ops.append(f"sdp {x_} {'B' if x_ == 'A' else 'A'}")      # whole-session SDP handed over as text
         pro = ["creds A 1 B 1", "creds B 1 A 1"] + [f"cands {a} 1 {c} {b} 1" for a, b in (("A", "B"), ("B", "A")) for c in range(1, k + 1)]
         cut = rng.randint(2, len(pro))          # sometimes the fuzzing starts in the middle of the signalling
         ops += pro[:cut]
